@@ -886,4 +886,64 @@ class UnrelatedModulesInTheCall(object):
         return repr([o[:2] for _, o in runs]), vs, 4
 
 
-FAMILIES = [Histories(), HashSeeds(), OptionHistories(), Routes(), ClassInstances(), FailingReaders(), _shared_cache_directory(), UnrelatedModulesInTheCall()]
+class GrowingTree(object):
+    name = 'source-tree-changing-between-calls'
+    describe = ('ONE compiler over a real, recursive FileReader: FIRST-MIB is compiled, then the tree changes - a directory holding '
+                'SECOND-MIB appears 1 to 4 levels down (below the top, below the directory FIRST-MIB came from, below a directory '
+                'that existed and was empty), or an existing directory is replaced by another of the same name - and SECOND-MIB is '
+                'asked for: same statuses as a fresh compiler over the same files gives')
+
+    def blocks(self, tier):
+        return [{'where': w} for w in ('top', 'beside-first', 'in-empty-dir', 'replaced-dir')]
+
+    def cases(self, block, tier):
+        for depth in (1, 2, 3, 4):
+            for first_depth in (0, 1, 2):
+                yield {'where': block['where'], 'depth': depth, 'first_depth': first_depth}
+
+    def run_case(self, case):
+        from pysmi.reader.localfile import FileReader
+        base = os.environ.get('VERIF_TMP') or ('/dev/shm' if os.path.isdir('/dev/shm') else None)
+        root = tempfile.mkdtemp(prefix='mcC12t', dir=base)
+
+        def mod(name, arc):
+            return '%s DEFINITIONS ::= BEGIN\nIMPORTS enterprises FROM SNMPv2-SMI;\nn%d OBJECT IDENTIFIER ::= { enterprises %d }\nEND\n' % (name, arc, arc)
+
+        def make():
+            parser = env.shared_parser(DIALECT)
+            parser.reset()
+            comp = env.MibCompiler(parser, env.make_codegen('json'), env.CaptureWriter())
+            comp.addSources(FileReader(root, recursive=True), env.DictReader(env.base_texts()))
+            comp.addSearchers(env.StubSearcher(*env.BASE_NAMES))
+            return comp
+        try:
+            fdir = os.path.join(root, *['f%d' % i for i in range(case['first_depth'])])
+            os.makedirs(fdir, exist_ok=True)
+            with open(os.path.join(fdir, 'FIRST-MIB.txt'), 'w') as f:
+                f.write(mod('FIRST-MIB', 1))
+            os.makedirs(os.path.join(root, 'empty', 'inner'))
+            os.makedirs(os.path.join(root, 'old', 'release'))
+            with open(os.path.join(root, 'old', 'release', 'OTHER-MIB.txt'), 'w') as f:
+                f.write(mod('OTHER-MIB', 3))
+            comp = make()
+            r1 = comp.compile('FIRST-MIB')
+            start = {'top': root, 'beside-first': fdir, 'in-empty-dir': os.path.join(root, 'empty', 'inner'),
+                     'replaced-dir': os.path.join(root, 'old')}[case['where']]
+            if case['where'] == 'replaced-dir':
+                shutil.rmtree(os.path.join(root, 'old', 'release'))
+            target = os.path.join(start, *(['release'] + ['d%d' % i for i in range(case['depth'] - 1)]))
+            os.makedirs(target, exist_ok=True)
+            with open(os.path.join(target, 'SECOND-MIB.txt'), 'w') as f:
+                f.write(mod('SECOND-MIB', 2))
+            got = sorted((k, str(v)) for k, v in comp.compile('SECOND-MIB').items())
+            want = sorted((k, str(v)) for k, v in make().compile('SECOND-MIB').items())
+            vs = []
+            if got != want:
+                vs.append(('C12|growing-tree|%s|differs-from-a-fresh-compiler' % case['where'],
+                           'depth %d below %s: long-lived %r, fresh %r (first call: %r)' % (case['depth'], case['where'], got, want, str(r1.get('FIRST-MIB')))))
+            return repr(got), vs, 3
+        finally:
+            shutil.rmtree(root, ignore_errors=True)
+
+
+FAMILIES = [Histories(), HashSeeds(), OptionHistories(), Routes(), ClassInstances(), FailingReaders(), _shared_cache_directory(), UnrelatedModulesInTheCall(), GrowingTree()]
